@@ -208,13 +208,7 @@ Definition can_top (c:cfg) (o:top_op) : bool :=
       && forallb (fun m => can_tbl_op c (fst (fst m)) (snd (fst m)) (snd m)) ops
       && (negb (cfg_batch c) || forallb (fun m => ident_eqb (fst (fst m)) tn && oident_eqb (snd (fst m)) s) ops)
   end.
-Definition can_cfg (c:cfg) : bool := negb (cfg_batch c) || str_eqb (cfg_op c) (lit "op").
-Definition canonical (i:c08_in) : bool := can_cfg (fst i) && forallb (can_top (fst i)) (snd i).
-
-(* text pasted between quotes is harmless when it lexes back to itself *)
-Definition raw_safe (s:str) : bool := lexres_eqb (py_lex (raw_quote s)) (Ok [StrTok s]).
-Definition prefixes_safe (o:top_op) : bool :=
-  match o with TCreateTable t => forallb raw_safe (t_prefixes t) | _ => true end.
+Definition canonical (i:c08_in) : bool := forallb (can_top (fst i)) (snd i).
 
 (* the opaque type trees given to the model *)
 Definition ty_ok (t:tytok) : bool := forallb all_leaves_via_repr (ty_args t).
@@ -233,11 +227,64 @@ Definition top_ty_ok (o:top_op) : bool :=
   | TOp _ _ o => tbl_op_ty_ok o
   | TModify _ _ ops => forallb (fun m => tbl_op_ty_ok (snd m)) ops
   end.
-Definition no_prefixes (o:top_op) : bool := match o with TCreateTable t => match t_prefixes t with [] => true | _ => false end | _ => true end.
 
 
-(* the hypotheses of the token-level theorem, evaluated per input *)
-Definition tokens_class (i:c08_in) : bool :=
-  forallb top_ty_ok (snd i) && forallb (fun st => forallb wf_expr (stmt_exprs st)) (render_ops (fst i) (snd i)).
+(* well-formed inputs: identifiers of the configuration and of the opaque type trees are Python identifiers,
+   every string is a sequence of code points *)
+Definition wf_cfg (c:cfg) : bool := valid_ident (cfg_op c) && valid_ident (cfg_sa c).
+Definition wf_id (i:ident) : bool := valid_strb (i_s i).
+Definition wf_oid (i:option ident) : bool := match i with Some x => wf_id x | None => true end.
+Definition wf_ostr (s:option str) : bool := match s with Some x => valid_strb x | None => true end.
+Definition wf_cname (n:cname) : bool := match n with NoName => true | Plain i => wf_id i | Conv s => valid_strb s end.
+Definition wf_ty (t:tytok) : bool :=
+  forallb valid_ident (ty_path t) && match ty_mod t with TySa => true | TyDialect d => valid_ident d end && forallb wf_expr (ty_args t).
+Definition wf_oty (t:option tytok) : bool := match t with Some x => wf_ty x | None => true end.
+Definition wf_sd (d:sdefault) : bool := match d with SdStr s | SdText s | SdComputed s _ => valid_strb s end.
+Definition wf_osd (d:option sdefault) : bool := match d with Some x => wf_sd x | None => true end.
+Definition wf_column (x:column) : bool := wf_id (c_name x) && wf_ty (c_type x) && wf_osd (c_default x) && wf_ostr (c_comment x).
+Definition wf_tcons (k:tcons) : bool :=
+  match k with
+  | CPk cols n => forallb wf_id cols && wf_cname n
+  | CFk cols refs n ou od i _ _ m => forallb wf_id cols && forallb valid_strb refs && wf_cname n && wf_ostr ou && wf_ostr od && wf_ostr i && wf_ostr m
+  | CUq cols n _ i => forallb wf_id cols && wf_cname n && wf_ostr i
+  | CCk s n => valid_strb s && wf_cname n
+  end.
+Definition wf_table (t:table) : bool :=
+  wf_id (t_name t) && wf_oid (t_schema t) && forallb wf_column (t_cols t) && forallb wf_tcons (t_cons t) && wf_ostr (t_comment t)
+  && forallb valid_strb (t_prefixes t).
+Definition wf_ixexpr (e:ixexpr) : bool := match e with IxCol i => wf_id i | IxExpr s => valid_strb s end.
+Definition wf_tri {A} (f:A -> bool) (t:tri A) : bool := match t with SetTo a => f a | _ => true end.
+Definition wf_alter (a:altercol) : bool :=
+  wf_id (a_col a) && wf_oty (a_existing_type a) && wf_tri wf_sd (a_server_default a) && wf_oid (a_new_name a) && wf_oty (a_type a)
+  && wf_tri valid_strb (a_comment a) && wf_ostr (a_existing_comment a) && wf_osd (a_existing_server_default a).
+Definition wf_fk (f:fkop) : bool :=
+  wf_cname (f_name f) && wf_id (f_referent f) && forallb wf_id (f_local f) && forallb wf_id (f_remote f) && wf_ostr (f_source_schema f)
+  && wf_ostr (f_referent_schema f) && wf_ostr (f_onupdate f) && wf_ostr (f_ondelete f) && wf_ostr (f_initially f) && wf_ostr (f_match f).
+Definition wf_tbl_op (tn:ident) (schema:option ident) (o:tbl_op) : bool :=
+  wf_id tn && wf_oid schema &&
+  match o with
+  | OAddColumn x => wf_column x
+  | ODropColumn i => wf_id i
+  | OAlterColumn a => wf_alter a
+  | OCreateIndex n e _ _ => wf_cname n && forallb wf_ixexpr e
+  | ODropIndex n _ => wf_cname n
+  | OCreateUnique n cols _ i => wf_cname n && forallb wf_id cols && wf_ostr i
+  | OCreateFk f => wf_fk f
+  | ODropConstraint n t => wf_cname n && wf_oid t
+  | OCreateTableComment c e => wf_ostr c && wf_ostr e
+  | ODropTableComment e => wf_ostr e
+  end.
+Definition wf_top (o:top_op) : bool :=
+  match o with
+  | TCreateTable t => wf_table t
+  | TDropTable n s _ _ => wf_id n && wf_oid s
+  | TOp tn s o => wf_tbl_op tn s o
+  | TModify tn s ops => wf_id tn && wf_oid s && forallb (fun m => wf_tbl_op (fst (fst m)) (snd (fst m)) (snd m)) ops
+  end.
+Definition wf_input (i:c08_in) : bool := wf_cfg (fst i) && forallb wf_top (snd i).
 
-Definition inclass_C08 (i:c08_in) : bool := canonical i && forallb prefixes_safe (snd i) && tokens_class i.
+(* the hypotheses of the token-level theorem, evaluated per input: the opaque type trees have all their
+   leaves via repr (they are SQLAlchemy's repr) and the input is well-formed *)
+Definition tokens_class (i:c08_in) : bool := forallb top_ty_ok (snd i) && wf_input i.
+
+Definition inclass_C08 (i:c08_in) : bool := canonical i && tokens_class i.
